@@ -422,6 +422,8 @@ fn run(ctx: &mut Ctx, c: &Case, o: &mut Outcome) -> R<()> {
             if o.failed() {
                 break;
             }
+            o.count("steps_with_channels_drained", 1);
+            o.count("events_compared", seen.iter().map(|(_, e)| e.len() as u64).sum());
             for (n, evs) in &seen {
                 // model-independent clauses
                 if reply_err && !evs.is_empty() {
